@@ -2,3 +2,4 @@
 pub mod zipw;
 pub mod xlsx;
 pub mod ods;
+pub mod cfb;
